@@ -168,10 +168,17 @@ Effect(st, x) == [st EXCEPT !.eff = Append(st.eff, x)]
 
 \* apply a pure result: a value is written to dest, an error stops the instruction before the write; an undecided
 \* operation leaves its term (and is an effect, because it may fail)
+\* operations that cannot fail on operands of the right type: an uninterpreted result of one of them is a plain term,
+\* not an effect (nothing observable happens besides the value)
+TotalOps == {<<"op", "Not">>, <<"op", "EqualBool">>, <<"op", "FloatFromInt">>, <<"op", "WrappingAdd">>, <<"op", "WrappingMul">>,
+             <<"op", "Ceil">>, <<"op", "Floor">>, <<"op", "Round">>, <<"op", "SquareRoot">>,
+             <<"flt", "+">>, <<"flt", "-">>, <<"flt", "*">>}
+             \cup {<<"icmp", o>> : o \in {"<", "<=", ">", ">=", "=="}} \cup {<<"fcmp", o>> : o \in {"<", "<=", ">", ">=", "=="}}
 Fin(st, dest, res, term, conc) ==
   CASE res.k = "val" -> Wr(st, dest, res.v)
     [] res.k = "err" -> Fail(st, res.e)
-    [] OTHER -> Wr(Effect([st EXCEPT !.open = st.open + (IF conc THEN 1 ELSE 0)], term), dest, term)
+    [] OTHER -> LET s1 == [st EXCEPT !.open = st.open + (IF conc THEN 1 ELSE 0)] IN
+                Wr(IF term.op \in TotalOps THEN s1 ELSE Effect(s1, term), dest, term)
 
 \* dest, reg1, reg2: reg2 is read first, then reg1 (vm.rs), then dest is written.  ty = "any": uninterpreted operation
 Bin3(st, ins, f(_, _), ty, name) ==
@@ -328,7 +335,11 @@ Exec(st, ins) ==
          IF HasObj(st, v, "variant") THEN Push(Push(PopS(st), st.heap[v.v].val), IV(Big(st.heap[v.v].tag))) ELSE Skip(st)
     [] op = "Jump" -> [st EXCEPT !.ctl = [k |-> "jump", to |-> ins.args[1]]]
     [] op \in {"JumpIf", "JumpIfFalse"} ->
-         LET c == PopV(st)  s1 == PopS(st)  want == (op = "JumpIf") IN
+         \* (jumping on `not x` is jumping on x with the opposite sense)
+         LET c0 == PopV(st)  s1 == PopS(st)
+             neg == c0.t = "app" /\ c0.op = <<"op", "Not">>
+             c == IF neg THEN c0.args[1] ELSE c0
+             want == IF neg THEN op # "JumpIf" ELSE op = "JumpIf" IN
          IF c.t = "b" THEN (IF c.v = want THEN [s1 EXCEPT !.ctl = [k |-> "jump", to |-> ins.args[1]]] ELSE s1)
          ELSE IF IsConc(c) THEN Fail(s1, "wrongtype")
          ELSE [s1 EXCEPT !.ctl = [k |-> "cjump", c |-> c, on |-> want, to |-> ins.args[1]]]
